@@ -241,3 +241,55 @@ func TestPropIntraASRounds(t *testing.T) {
 		}
 	})
 }
+
+// No SCION daemon configured: the service then has no Pather at all for its SCION reference clocks and peers in
+// other ASes (timeservice.go keeps a nil *scion.Pather and asks it for paths every round). "The round reports an
+// error when no path is available": asking that Pather must yield no paths, and the round an error - not a panic.
+var recNoPather = ev.New("c15/no-pather-rounds", "rapid: rounds of the real MeasureClockOffsetSCION (1..7 clients, interleaved mode on or off) whose path list comes from a nil *scion.Pather, as in a service configured without a SCION daemon address, for destinations in the local or another ISD-AS. Oracle: Paths yields an empty list without panicking, the round returns an error and no hop sees a request. One evaluation = one round. Non-trivial: every round; distinct by (clients, destination)")
+
+func TestPropNoPatherRounds(t *testing.T) {
+	lIA := ia(1, 0xff0000000110)
+	vt.Check(t, 40, 400, func(t *rapid.T) {
+		m := rapid.IntRange(1, 7).Draw(t, "clients")
+		var cs []*client.SCIONClient
+		for i := 0; i < m; i++ {
+			cs = append(cs, &client.SCIONClient{Log: slog.New(slog.NewTextHandler(io.Discard, nil)), InterleavedMode: rapid.Bool().Draw(t, "interleaved")})
+		}
+		dst := rapid.SampledFrom([]addr.IA{lIA, ia(2, 0xff0000000220), 0}).Draw(t, "destination")
+		var p *scion.Pather
+		var ps []snet.Path
+		var perr any
+		func() {
+			defer func() { perr = recover() }()
+			ps = p.Paths(dst)
+		}()
+		if perr != nil {
+			t.Fatalf("asking the Pather of a service without SCION daemon for paths to %v panicked: %v", dst, perr)
+		}
+		if len(ps) != 0 {
+			t.Fatalf("a Pather that never saw a daemon offers %d paths", len(ps))
+		}
+		for _, h := range hops {
+			h.mu.Lock()
+			h.recs = nil
+			h.mu.Unlock()
+		}
+		local := udp.UDPAddr{IA: lIA, Host: netlab.UDPAddr(netlab.Addr(1), 0)}
+		remote := udp.UDPAddr{IA: dst, Host: netlab.UDPAddr(netlab.Addr(3), 10123)}
+		ctx, cancel := context.WithTimeout(context.Background(), 300*time.Millisecond)
+		_, _, merr := client.MeasureClockOffsetSCION(ctx, cs[0].Log, cs, local, remote, ps)
+		cancel()
+		if merr == nil {
+			t.Fatalf("a round without any path reported no error")
+		}
+		for i, h := range hops {
+			h.mu.Lock()
+			n := len(h.recs)
+			h.mu.Unlock()
+			if n != 0 {
+				t.Fatalf("hop %d saw %d requests in a round without paths", i, n)
+			}
+		}
+		recNoPather.Eval(true, ev.Hash(m, uint64(dst)), func() any { return map[string]any{"clients": m, "destination": dst.String()} })
+	})
+}
